@@ -287,14 +287,35 @@ class Scalar(AbstractValueWithQuantityObject):
     def __hash__(self) -> int:  # type:ignore[override]
         return hash((self._value, self._quantity))
 
-    def __lt__(self, other: Any) -> bool:
+    def _GetValuesToCompare(self, other: Any) -> Tuple[float, float]:
+        """
+        :returns:
+            The value of this scalar and the value of the other scalar in the unit of this scalar.
+        """
         if self.quantity_type != other.quantity_type:
             msg = "can not compare scalars of different quantity types: %r != %r"
             raise TypeError(msg % (self.quantity_type, other.quantity_type))
 
-        v1 = self._value
-        v2 = other.GetValue(self.unit)
+        return self._value, other.GetValue(self.unit)
+
+    # All the order operators are defined explicitly (and not derived from __lt__ and __eq__ by
+    # total_ordering) because __eq__ also requires the same unit, while the order is based on the
+    # amounts converted to the same unit.
+    def __lt__(self, other: Any) -> bool:
+        v1, v2 = self._GetValuesToCompare(other)
         return v1 < v2
+
+    def __le__(self, other: Any) -> bool:
+        v1, v2 = self._GetValuesToCompare(other)
+        return v1 <= v2
+
+    def __gt__(self, other: Any) -> bool:
+        v1, v2 = self._GetValuesToCompare(other)
+        return v1 > v2
+
+    def __ge__(self, other: Any) -> bool:
+        v1, v2 = self._GetValuesToCompare(other)
+        return v1 >= v2
 
     # right ----------------------------------------------------------------------------------------
     def __rtruediv__(self, other: Any) -> "Scalar":
